@@ -567,6 +567,32 @@ func capturedByClosure(al *ssa.Alloc) bool {
 
 func anyNil(v ssa.Value) bool { return isNil(v) }
 
+// GContains: G is "v is an element of s" established by slices.Contains(s, v) being true
+// (ms accepts the slice operand, mv the needle).
+func GContains(ms, mv func(ssa.Value) bool) Guard {
+	return func(cond ssa.Value, branch bool) bool {
+		core, neg := normCond(cond)
+		call, ok := core.(*ssa.Call)
+		if !ok || branch == neg {
+			return false
+		}
+		return isSlicesContains(call) && ms(rv(call.Call.Args[0])) && mv(rv(call.Call.Args[1]))
+	}
+}
+
+// isSlicesContains: a call of (an instantiation of) slices.Contains.
+func isSlicesContains(call *ssa.Call) bool {
+	f := call.Call.StaticCallee()
+	if f == nil || len(call.Call.Args) != 2 {
+		return false
+	}
+	o := f.Origin()
+	if o == nil {
+		o = f
+	}
+	return o.Pkg != nil && o.Pkg.Pkg.Path() == "slices" && o.Name() == "Contains"
+}
+
 // GErrNil: G is "err == nil" for the given error value.
 func GErrNil(err ssa.Value) Guard { return GEq(isVal(err), anyNil) }
 
